@@ -49,6 +49,7 @@ func c11Run(c c11Case) Outcome {
 		return nil
 	}
 	calls := map[string]*speer.Call{}
+	wantBody := map[string][]byte{}
 	var tags []string
 	for i := 0; i < c.N; i++ {
 		tag := fmt.Sprintf("t%d", i)
@@ -65,6 +66,11 @@ func c11Run(c c11Case) Outcome {
 					r.BodyLen = 70000
 				}
 			}
+		}
+		if r.BodyLen > 0 {
+			wantBody[tag] = peer.BodyFor(tag, r.BodyLen)
+		} else {
+			wantBody[tag] = nil
 		}
 		calls[tag] = env.Do(r)
 		tags = append(tags, tag)
@@ -189,6 +195,10 @@ func c11Run(c c11Case) Outcome {
 							did = true
 						}
 						if g != nil && g.EndStream > 0 && !sc.Answered(id) {
+							// a request the client sends again must be the request it was given: same body
+							if want, ok := wantBody[t]; ok && string(g.Body) != string(want) {
+								return &Outcome{Fail: fmt.Sprintf("request %s was sent again on connection %d (stream %d) with a body of %d octets; the caller gave it %d octets (first connection: streams %v)", t, sc.Index, id, len(g.Body), len(want), streamsOf(c0)[t]), Sig: "resent-body"}
+							}
 							sc.MarkAnswered(id)
 							respHeaders(sc, id, t+"@"+fmt.Sprint(sc.Index), false)
 							_ = sc.Write(rawframe.Append(nil, rawframe.Data, rawframe.FlagEndStream, id, peer.BodyFor(t, 10)))
